@@ -121,3 +121,34 @@ Example C06_example_mixed :
   /\ filter_selected true [] ["#performance"] c = false
   /\ filter_selected false ["hugeParam"] ["hugeParam"] c = false.
 Proof. vm_compute. auto. Qed.
+
+(* ---- round 5: "identically in the CLI, its twin binary, the analyzer" for the SAME flag texts ----
+   Full statement: forall reg all en dis c, dis <> "<default>" ->
+     cli_selected reg (flags all en dis) c = an_selected (flags all en dis) c.
+   It needs every element of both lists to be free of surrounding blanks: the analyzer trims, the CLIs do not. *)
+Theorem C06_frontends_same_flag_text_partial : forall reg all en dis c,
+  unpaddedb (split_on comma en) = true -> unpaddedb (split_on comma dis) = true ->
+  String.eqb dis "<default>" = false ->
+  cli_selected reg {| cf_all := all; cf_enable := Some en; cf_disable := Some dis |} c
+  = an_selected {| af_all := all; af_enable := Some en; af_disable := Some dis |} c.
+Proof. exact frontends_same_keys. Qed.
+Print Assumptions C06_frontends_same_flag_text_partial.
+
+Theorem C06_analyzer_is_cli_on_trimmed_lists : forall all en dis c,
+  String.eqb dis "<default>" = false ->
+  an_selected {| af_all := all; af_enable := Some en; af_disable := Some dis |} c
+  = filter_selected all (map trim_space (split_on comma en)) (map trim_space (split_on comma dis)) c.
+Proof. exact analyzer_is_cli_on_trimmed. Qed.
+Print Assumptions C06_analyzer_is_cli_on_trimmed_lists.
+
+(* `-enable=' dupArg'`: the CLI selects nothing, the analyzer selects dupArg (recorded finding). *)
+Theorem C06_frontends_padded_refuted :
+  exists reg all en dis c, In c reg /\ valid_checker c = true /\ String.eqb dis "<default>" = false /\
+    cli_selected reg {| cf_all := all; cf_enable := Some en; cf_disable := Some dis |} c
+    <> an_selected {| af_all := all; af_enable := Some en; af_disable := Some dis |} c.
+Proof. exact frontends_padded_refuted. Qed.
+Print Assumptions C06_frontends_padded_refuted.
+
+Example C06_example_unpadded :
+  unpaddedb (split_on comma "#diagnostic,#style,dupArg,") = true /\ unpaddedb (split_on comma "#style, #performance") = false.
+Proof. vm_compute. auto. Qed.
